@@ -32,12 +32,14 @@ type XATx struct {
 // Commit ends and prepares the XA branch of the transaction (phase one); the
 // coordinator commits or rolls back the prepared branch in phase two.
 func (tx *XATx) Commit() error {
+	defer tx.tx.conn.resetAfterTx()
 	tx.tx.beforeCommit()
 	return tx.commitOnXA()
 }
 
 // Rollback ends the XA branch with failure, rolls it back and reports it.
 func (tx *XATx) Rollback() error {
+	defer tx.tx.conn.resetAfterTx()
 	var err error
 	if tx.xaConn != nil && tx.xaConn.xaActive {
 		err = tx.xaConn.Rollback(context.Background())
